@@ -1,7 +1,9 @@
 (** Storage/Run.v — harness entry points of the storage model: the Section functions of Model.v are
-    instantiated with the concrete serialiser (Prim.ser_prim) and reader (Syntax.parse_obj).
+    instantiated with the shared serialiser model (Syn.Serialize.ser) and the shared parser model
+    (Syntax.parse_obj = Syn.Parser.parse_indirect_object at a position of the backend).
     Mirrors harness/src/modes/storage.rs.  No proofs in this file. *)
 From PdfV Require Import Base.Prelude Storage.Prim Storage.Syntax Storage.Model.
+From PdfV Require Syn.Serialize.
 
 Definition field (fs : list bytes) (i : nat) : bytes := nth i fs [].
 
@@ -22,11 +24,11 @@ Fixpoint read_offsets (n : nat) (c : cur) (acc : list N) : res (list N) :=
 (** stream.rs: ObjectStream::get_object_slice + file.rs: parse(slice) — unfiltered containers only *)
 Definition member_c (bk : bytes) (c : prim) (idx : N) : res prim :=
   match c with
-  | PStream d inner =>
+  | PStream d _ _ _ _ =>
     match dget d k_Filter with
     | Some _ => Err 96
     | None =>
-      match dget d k_N, dget d k_First, raw_data bk inner with
+      match dget d k_N, dget d k_First, raw_data bk c with
       | Some pn, Some pf, Some data =>
         match as_N pn, as_N pf with
         | Some n, Some first =>
@@ -69,8 +71,8 @@ Fixpoint classic_sections (fuel : nat) (c : cur) (acc : list section) : res (lis
   | S f =>
     let '(w, c1) := next_word c in
     if beq_bytes w kw_trailer then
-      do vr <- pval (S (length (snd c1))) c1;
-      match fst vr with PDict d => Ok (rev acc, d) | _ => Err 9 end
+      do v <- parse_dict_at c1;
+      match v with PDict d => Ok (rev acc, d) | _ => Err 9 end
     else
       let '(w2, c2) := next_word c1 in
       if negb (all_digits w && all_digits w2) then Err 9 else
@@ -85,7 +87,7 @@ Definition read_classic_c (b : bytes) (pos : N) : res (list section * dict) :=
 (* ---- the concrete machine ---------------------------------------------------------------- *)
 Definition c_resolve := resolve parse_obj member_c.
 Definition c_get := get parse_obj member_c.
-Definition c_save := save ser_prim.
+Definition c_save := save Serialize.ser.
 Definition c_load := load parse_obj read_classic_c.
 Definition c_trailer_of := trailer_of parse_obj member_c.
 
@@ -94,7 +96,9 @@ Definition etext (e : N) : bytes :=
   33 :: (if e =? 1 then [70; 114; 101; 101; 79; 98; 106; 101; 99; 116]
          else if e =? 2 then [78; 117; 108; 108; 82; 101; 102]
          else if e =? 8 then [85; 110; 115; 112; 101; 99; 105; 102; 105; 101; 100; 88; 82; 101; 102; 69; 110; 116; 114; 121]
-         else if e =? 9 then [79; 116; 104; 101; 114]
+         else if e =? 10 then [69; 79; 70]
+         else if e =? 14 then [77; 97; 120; 68; 101; 112; 116; 104]
+         else if (e =? 9) || ((11 <=? e) && (e <=? 19)) then [79; 116; 104; 101; 114]
          else [68; 79; 77; 65; 73; 78] ++ dec_of_N e).
 
 Definition rtext (r : N * N) : bytes := [82] ++ dec_of_N (fst r) ++ [44] ++ dec_of_N (snd r).
